@@ -186,6 +186,38 @@ def make_sessions(ctx, n, nall):
     return out
 
 
+def lifted_big(ctx, s, r):
+    """large tables whose rows are copies of the rows of an ACCEPTED session: the accepted matrix, lifted"""
+    from .. import lifted as lf
+    ev = next(e for e in s["events"] if e["op"] == "Cdist")
+    A, B = s["A"], s["B"]
+    ba, bb = [(1100, 60), (50, 1300), (1030, 1030)][r % 3]
+    ia, ib = lf.index_map(ctx.rng, len(A), ba), lf.index_map(ctx.rng, len(B), bb)
+    want = lf.lift_matrix(ev["D"], ia, ib)
+    m = make_metric(s["cls"], s["wts"])
+    ta, tb = make_table([A[i] for i in ia], r), make_table([B[j] for j in ib], r + 1)
+    desc = f"{s['cls']}{s['wts']}.calc_cdist_matrix on {ba} x {bb} copies of the rows of session {s['sid']}"
+    rp = dict(kind="lifted", session=s, r=r)
+    ctx.case(dict(kind="lifted", call=desc), nontrivial=True)
+    try:
+        got = np.asarray(m.calc_cdist_matrix(ta, tb), dtype=float)
+    except Exception as e:      # noqa: BLE001
+        ctx.violation(f"{s['cls']}/large-input/raised", f"{desc} raised {type(e).__name__}: {e}"[:400], rp)
+        return
+    if got.shape != want.shape or not np.array_equal(got, want):
+        bad = np.argwhere(got != want)[:1].tolist() if got.shape == want.shape else "shape"
+        ctx.violation(f"{s['cls']}/large-input/entry_wrong", f"{desc}: differs from the lifted accepted matrix at {bad}"[:400], rp)
+    if s["events"][0]["op"] == "Pdist" and s["wts"]["edit"][0] == s["wts"]["edit"][1]:
+        # symmetric edit weights: the condensed vector of the large table is the upper triangle of the lifted square matrix
+        want_v = lf.lift_condensed(np.asarray(ev["D"], dtype=float), ia)
+        try:
+            got_v = np.asarray(m.calc_pdist_vector(ta), dtype=float)
+            if got_v.shape != want_v.shape or not np.array_equal(got_v, want_v):
+                ctx.violation(f"{s['cls']}/large-input/not_condensed_upper_triangle", f"{desc}: calc_pdist_vector differs from the lifted accepted matrix"[:400], rp)
+        except Exception as e:      # noqa: BLE001
+            ctx.violation(f"{s['cls']}/large-input/raised", f"{desc} (pdist) raised {type(e).__name__}: {e}"[:400], rp)
+
+
 def validate(ctx, sessions, vfile, count=True):
     consts = "  Cdr3s = {}\n  MaxRows = 1\n  MaxRowsB = 1\n  Classes = {}\n  EditWs = {}\n  ChainWs = {}\n  LoopWs = {}\n  InputClasses = {}\n  Mutations = {}"
     os.environ["PV_VDATA"] = vfile
@@ -193,6 +225,11 @@ def validate(ctx, sessions, vfile, count=True):
         return tcm.validate(ctx, "TraceTcrMetric", sessions, constants=consts, invariants=("CdistIsWeightedSum", "WeightTable"), count=count)
     finally:
         os.environ.pop("PV_VDATA", None)
+
+
+def _replay_item(ctx, i, item):
+    replay_doc(ctx, item[1], item[0], genes=item[2])
+    ctx.traces += 1
 
 
 def run(ctx):
@@ -205,31 +242,45 @@ def run(ctx):
     ctx.assumptions = ["the V-allele -> CDR1/CDR2 map is tidytcells data, read by the harness independently of pyrepseq's lookup path"]
     d = tempfile.mkdtemp(prefix="pvv_")
     try:
-        vsmall = os.path.join(d, "vsmall.json")
         vall = os.path.join(d, "vall.json")
-        small = ([ALPHA[0], ALPHA[2]], BETA[:2]) if ctx.quick else (ALPHA[:3], BETA[:3])     # ALPHA[2] has no CDR2
-        json.dump(gene_table(*small), open(vsmall, "w"))
         json.dump(gene_table(ALPHA, BETA), open(vall, "w"))
         q = ctx.quick
-        runs = [("one", cfg_text(maxrows=1, maxrowsb=1, ew="EW1" if q else "EW2", inclasses=("table", "list", "none", "ndarray", "no_tcr_column"))),
-                ("two", cfg_text(cdr3s="C3two", maxrows=2, maxrowsb=2 if not q else 1, classes=["Cdr3Levenshtein", "CdrLevenshtein"], ew="EW2", cw="CW2", lw="LW1" if q else "LW2"))]
+        small2 = ([ALPHA[0], ALPHA[2]], BETA[:2])                                             # ALPHA[2] has no CDR2
+        small3 = (ALPHA[:3], BETA[:3])
+        vfiles = {}
+        for nm, genes in (("v2", small2), ("v3", small3)):
+            vfiles[nm] = os.path.join(d, nm + ".json")
+            json.dump(gene_table(*genes), open(vfiles[nm], "w"))
+        one_classes = ("table", "list", "none", "ndarray", "no_tcr_column")
+        if q:
+            runs = [("one", cfg_text(maxrows=1, maxrowsb=1, ew="EW1", inclasses=one_classes), small2, "v2"),
+                    ("two", cfg_text(cdr3s="C3two", maxrows=2, maxrowsb=1, classes=["Cdr3Levenshtein", "CdrLevenshtein"], ew="EW2", cw="CW2", lw="LW1"), small2, "v2")]
+        else:
+            runs = [("one", cfg_text(maxrows=1, maxrowsb=1, ew="EW2", inclasses=one_classes), small3, "v3"),
+                    ("two", cfg_text(cdr3s="C3two", maxrows=2, maxrowsb=1, classes=["Cdr3Levenshtein", "CdrLevenshtein"], ew="EW2", cw="CW2", lw="LW2"), small2, "v2"),
+                    ("two2", cfg_text(cdr3s="C3two", maxrows=2, maxrowsb=2, classes=["Cdr3Levenshtein", "CdrLevenshtein"], ew="EW1", cw="CW2", lw="LW1"), small2, "v2")]
         n = 0
-        for name, text in runs:
-            res = run_cfg(ctx, name, text, vsmall)
-            for doc in ctx.sample([d for d in res.printed if "cls" in d], 16000):
-                if "cls" in doc:
-                    n += 1
-                    if doc["inclass"] == "table" and n % ((4 if name == "one" else 24) if q else 2):
-                        continue
-                    replay_doc(ctx, doc, n, genes=small)
-                    ctx.traces += 1
+        for name, text, genes, vf in runs:
+            res = run_cfg(ctx, name, text, vfiles[vf])
+            items = []
+            for doc in ctx.sample([d_ for d_ in res.printed if "cls" in d_], 30000):
+                n += 1
+                if doc["inclass"] == "table" and n % ((2 if name == "one" else 12) if q else 2):
+                    continue
+                items.append((n, doc, genes))
+            res.printed = []
+            ctx.parallel(items, _replay_item)
         ctx.exhaustive = True
         sessions = make_sessions(ctx, 40 if q else 400, len(ALPHA))
         verd = validate(ctx, sessions, vall)
+        nlift = 0
         for s in sessions:
             ctx.traces += 1
             ev = s["events"][0]
             ctx.case(dict(kind="session:" + ev["op"], cls=s["cls"], wts=s["wts"], rows=len(s["A"]), rowsB=len(s["B"])), nontrivial=True)
+            if not tcm.failures(verd[s["sid"]]) and not any(e["raised"] for e in s["events"]) and nlift < (3 if q else 18):
+                nlift += 1
+                lifted_big(ctx, s, nlift)
             for l, op, clause in tcm.failures(verd[s["sid"]]):
                 ctx.violation(f"{s['cls']}/session/{op}/{clause}", f"{s['cls']}{s['wts']} {op} on {len(s['A'])}x{len(s['B'])} rows: {clause} {ev.get('exc','')}"[:400],
                               dict(kind="session", session=s))
@@ -252,7 +303,7 @@ def run(ctx):
                 if not ok:
                     raise MachineryFailure(f"corrupted TCR metric trace ({want}) accepted")
         run_cfg(ctx, "NEG_swap", cfg_text(maxrows=1, maxrowsb=1, classes=["Cdr3Levenshtein"], ew="EW1", cw="CW2", lw="LW1", mutations=["swap_chain_weights"],
-                                          invs=("CdistIsWeightedSum", "WeightTable"), emit=False), vsmall,
+                                          invs=("CdistIsWeightedSum", "WeightTable"), emit=False), vfiles["v2"],
                 expect_violation=["CdistIsWeightedSum", "WeightTable"], workers=4)
     finally:
         shutil.rmtree(d, ignore_errors=True)
